@@ -28,6 +28,6 @@ for d in sorted(glob.glob(os.path.join(root, "seeded", "C*-*"))):
         "caught_by": c.get("failed_obligations"),
     }
     if os.path.exists(os.path.join(d, "patch.orig.diff")):
-        m["confirmation"]["note"] = "patch.diff was rebased by hand onto the repaired tree (a fix: commit touched the same lines); the sub-agent's original is patch.orig.diff"
+        m["confirmation"]["note"] = "patch.diff was rebased onto the repaired tree (a later fix: commit touched the same lines; 3-way merge, conflicts resolved by hand keeping the seeded defect); the sub-agent's original is patch.orig.diff"
     json.dump(m, open(mp, "w"), indent=1)
 print("updated")
